@@ -228,6 +228,23 @@ pub struct IterCase {
     pub n: usize,
 }
 
+pub const CONSUME: [&str; 6] = ["count()/last()", "fold", "for_each", "collect", "filter().count()/max()", "by_ref().take(3) then count()/skip().last()"];
+
+/// number of steps from t to the all-ones table, when at most `limit`
+fn dist_to_top(t: &Tt, limit: u64) -> Option<u64> {
+    let size = 1u64 << t.n;
+    let mask = if t.n >= 6 { !0u64 } else { (1u64 << size) - 1 };
+    if t.w.iter().skip(1).any(|w| *w != !0) {
+        return None;
+    }
+    let d = (t.w[0] & mask) ^ mask;
+    if d <= limit {
+        Some(d)
+    } else {
+        None
+    }
+}
+
 fn run_iter(c: &IterCase) -> Verdict {
     let f = c.fam.get();
     let n = c.n;
@@ -266,6 +283,17 @@ fn run_iter(c: &IterCase) -> Verdict {
         }
         if it.next().is_some() || it.next().is_some() {
             return Err(Fail { sig: "iter:restarts".into(), msg: format!("all_functions({}) yields items again after returning None", n) });
+        }
+        // the same complete run through the consuming adaptors of the library's iterator type
+        for kind in 0..6u8 {
+            let (cnt, last) = f.all_functions_consume(n, kind);
+            if cnt as u64 != total {
+                return Err(Fail { sig: "iter:consume-count".into(), msg: format!("{}::all_functions({}) consumed through {} yields {} items, expected {}", c.fam.label(), n, CONSUME[kind as usize], cnt, total) });
+            }
+            match last {
+                Some(l) if same_fn(l.as_ref(), &Tt::one(n)).is_ok() => {}
+                other => return Err(Fail { sig: "iter:consume-last".into(), msg: format!("{}::all_functions({}) consumed through {}: last/max item is {:?}, expected the all-ones table", c.fam.label(), n, CONSUME[kind as usize], other.map(|t| to_model(t.as_ref()).short())) }),
+            }
         }
         Ok(())
     });
@@ -460,8 +488,36 @@ fn run_succ(c: &SuccCase) -> Verdict {
         (v.next().flatten(), v.next().flatten())
     });
     ensure!(got2.0 == want_k && got2.1 == want_k.as_ref().and_then(|t| advance(t, step + 1)), "iter-from:nth-twice", "{}: iterator started at {}: nth({}) then nth({}) = {:?}", fl, c.t.short(), k, step, (got2.0.as_ref().map(|t| t.short()), got2.1.as_ref().map(|t| t.short())));
+    // jumps of at least the number of remaining items (also several times the whole function
+    // space for small n): None, and nothing afterwards
+    let remaining = dist_to_top(&c.t, 1 << 20);
+    let mut consumed = false;
+    if let Some(d) = remaining {
+        let rem = d as usize + 1;
+        for jump in [rem, rem + 1, 2 * rem + 3, rem + 255, 4 * rem + 1024, rem + (1usize << 16) * (1 + c.pull % 3)] {
+            let got = lib!("nth beyond the end", x.iter_adaptor(3, jump, 0).into_iter().map(|o| o.map(|i| to_model(i.as_ref()))).collect::<Vec<_>>());
+            ensure!(got.iter().all(|g| g.is_none()), "iter-from:nth-beyond-end", "{}: iterator started at {} ({} items remain): nth({}) then nth(0) = {:?}, expected None twice", fl, c.t.short(), rem, jump, got.iter().map(|g| g.as_ref().map(|t| t.short())).collect::<Vec<_>>());
+            let got = lib!("skip beyond the end", x.iter_adaptor(1, jump, 0).remove(0).map(|i| to_model(i.as_ref())));
+            ensure!(got.is_none(), "iter-from:skip-beyond-end", "{}: iterator started at {} ({} items remain): skip({}).next() = {:?}", fl, c.t.short(), rem, jump, got.as_ref().map(|t| t.short()));
+        }
+        // in-range jump to the very last item
+        let got = lib!("nth to the last item", x.iter_adaptor(0, rem - 1, 0).remove(0).map(|i| to_model(i.as_ref())));
+        ensure!(got == Some(Tt::one(n)), "iter-from:nth-last", "{}: iterator started at {} ({} items remain): nth({}) = {:?}, expected the all-ones table", fl, c.t.short(), rem, rem - 1, got.as_ref().map(|t| t.short()));
+        if d <= 400 {
+            consumed = true;
+            for kind in 0..6u8 {
+                let (cnt, last) = lib!(format!("consuming the iterator through {}", CONSUME[kind as usize]), x.iter_consume(kind));
+                ensure!(cnt == rem, "iter-from:consume-count", "{}: iterator started at {} consumed through {} yields {} items, expected {}", fl, c.t.short(), CONSUME[kind as usize], cnt, rem);
+                let lm = last.map(|l| to_model(l.as_ref()));
+                ensure!(lm == Some(Tt::one(n)), "iter-from:consume-last", "{}: iterator started at {} consumed through {}: last/max item {:?}, expected the all-ones table", fl, c.t.short(), CONSUME[kind as usize], lm.as_ref().map(|t| t.short()));
+            }
+        }
+    }
     let word_carry = c.t.w.len() >= 2 && c.t.w[0] == !0;
     let mut labels = vec![format!("fam:{}", fl), format!("n:{}", n), format!("size:{}", n_label(n))];
+    if consumed {
+        labels.push("consumed-to-the-end".into());
+    }
     if word_carry {
         labels.push("step-carries-across-word".into());
     }
@@ -480,7 +536,7 @@ fn run_succ(c: &SuccCase) -> Verdict {
 pub fn def() -> PropDef {
     PropDef {
         id: "C08",
-        rule: "order: cases = (family, 3..8 tables) of one n in 0..=12 (plus, for Lut, tables of other sizes, often with the same low block): b is `opposed` to a (greater at a high bit/word position and smaller at a low one, or the reverse) or related (equal, complement, 1-2 bits, one word); for all ordered pairs cmp, partial_cmp, <,<=,>,>=, == are compared with the harness's big-integer comparison (bit 2^n-1 first; n first), antisymmetry and transitivity are checked directly, sorting by cmp must be sorted for the oracle, and the fixed-width hex strings must order like cmp. Non-trivial = a pair that differs at >= 2 positions with opposite direction, or in n. Exhaustive: all ordered pairs n<=2 (quick) / n<=3 (thorough). iterator: complete runs of all_functions(n), n<=3 (quick) / n<=4 (thorough): first item zero, each item the numeric successor of the previous (model +1), strictly increasing under cmp, exactly 2^(2^n) items, then None twice. successor: through the hooks, from generated tables of n in 0..=12 (classes: low k bits / low k words all ones, within 300 of the top, generated) one successor step must equal model+1 mod 2^(2^n) with the right wrap flag, and the iterator started there must yield exactly the following successors and stop after the all-ones table; nth(k), skip(k), step_by(s) and two successive nth calls on that iterator (k < 67) must agree with repeated next(). Non-trivial = the step carries across a 64-bit word or wraps.",
+        rule: "order: cases = (family, 3..8 tables) of one n in 0..=12 (plus, for Lut, tables of other sizes, often with the same low block): b is `opposed` to a (greater at a high bit/word position and smaller at a low one, or the reverse) or related (equal, complement, 1-2 bits, one word); for all ordered pairs cmp, partial_cmp, <,<=,>,>=, == are compared with the harness's big-integer comparison (bit 2^n-1 first; n first), antisymmetry and transitivity are checked directly, sorting by cmp must be sorted for the oracle, and the fixed-width hex strings must order like cmp. Non-trivial = a pair that differs at >= 2 positions with opposite direction, or in n. Exhaustive: all ordered pairs n<=2 (quick) / n<=3 (thorough). iterator: complete runs of all_functions(n), n<=3 (quick) / n<=4 (thorough): first item zero, each item the numeric successor of the previous (model +1), strictly increasing under cmp, exactly 2^(2^n) items, then None twice. successor: through the hooks, from generated tables of n in 0..=12 (classes: low k bits / low k words all ones, within 300 of the top, generated) one successor step must equal model+1 mod 2^(2^n) with the right wrap flag, and the iterator started there must yield exactly the following successors and stop after the all-ones table; nth(k), skip(k), step_by(s) and two successive nth calls on that iterator (k < 67) must agree with repeated next(); when at most 2^20 items remain, nth/skip by at least the remaining count (up to several times the function space) must give None and stay None, and when at most 400 remain the iterator consumed through count/last/fold/for_each/collect/filter/max/by_ref must yield exactly the remaining items ending in the all-ones table (complete runs likewise). Non-trivial = the step carries across a 64-bit word or wraps.",
         assumptions: vec![
             "the 2^64-step public path to a word carry is replaced by the cfg-guarded hooks verif_successor / verif_all_functions_from, which call the real next_inplace / iterator",
             "value(), from_blocks()/set_bit() as observation/loading channel",
